@@ -633,7 +633,8 @@ func checkC16(r *Run) {
 		case "target_package_name":
 			dc.TargetPackageName = "decoytarget"
 		case "duration_custom_type":
-			dc.DurationCustomType = "DecoyDuration"
+			// (a cast type some fields of K1 really have: were it honoured next to the command-line one, output would change)
+			dc.DurationCustomType = "BillingDuration"
 		case "sort":
 			dc.Sort, dc.SortSet = !cf.real.Cfg.Sort, true
 		}
@@ -857,8 +858,11 @@ func checkC18(r *Run) {
 				curKind = kind
 				// the offending field has an UpperCamel or a lower_snake proto name
 				fname := "ZzUnmappable"
-				if (pi+ki)%2 == 1 {
+				switch (pi + ki) % 3 {
+				case 1:
 					fname = "zz_unmappable"
+				case 2:
+					fname = "default" // a Go keyword is a fine proto field name
 				}
 				build := func(excl bool, name string, exclPathsOf ...string) *pipeline.Case {
 					e := m()
